@@ -458,6 +458,7 @@ def run(pid, P, t0, tmpdir):
     distinct = set()
     sample_mod = 1
     all_cands = []
+    gate_failed = []
     for e in P["engines"]:
         exe = exes[e["id"]]
         te = time.time()
@@ -508,8 +509,10 @@ def run(pid, P, t0, tmpdir):
         if not any(c["engine"] is e for c in all_cands):
             est["determinism_gate"] = determinism_gate(exe, e, tier, seed, [t for _, _, t in results])
             if est["determinism_gate"]["mismatches"]:
+                # no verdict from this engine; violations found by the other engines are still
+                # reported (each one is confirmed on its own by fresh-process replays below)
                 log("INFRA determinism gate failed for %s: %s" % (e["id"], est["determinism_gate"]))
-                return 2
+                gate_failed.append(e["id"])
         agg["engines"][e["id"]] = est
 
     # 3. violation pipeline: gate, minimise, replay file
@@ -578,7 +581,12 @@ def run(pid, P, t0, tmpdir):
         log("VIOLATION property=%s replay=%s" % (pid, path))
     log("%s %s: %d runs (+%d single-fault re-runs), %d violations, %.1fs (build %.1fs)" %
         (pid, tier, agg["executed"], agg["enum_runs"], len(violations), wall, t_build))
-    return 1 if violations else 0
+    if violations:
+        return 1
+    if gate_failed:
+        log("simulator nondeterminism in %s: no verdict" % ", ".join(gate_failed))
+        return 2
+    return 0
 
 
 def load_findings(pid):
